@@ -111,6 +111,23 @@ def run_case(ctx, rep, spec, cn, posname, pos, fields, limit, model, path=None, 
                 break
     for x in bad[:3]:
         rep.fail(x, case)
+    if model and not bad:
+        # distribution of the boxes over binary files against the Lean chunking model
+        reqs = []
+        for lv in range(L + 1):
+            idx = Q["levels"][lv]["idx"]
+            total = sum((hi[0] - lo[0] + 1) * (hi[1] - lo[1] + 1) for lo, hi in idx) * len(fields) * 8
+            reqs.append({"op": "chunks", "n": len(idx), "total_bytes": total, "threshold": 1000000})
+        for lv, m in enumerate(leanio.driver(reqs)):
+            groups = {}
+            for b, (f, _) in enumerate(Q["levels"][lv]["fab"]):
+                groups.setdefault(f, []).append(b)
+            got = [groups[f] for f in sorted(groups)]
+            if got == [c for c in m["chunks"] if c]:
+                rep.agree()
+            else:
+                rep.tie("distribution of the boxes over binary files differs from the Lean chunking model",
+                        dict(case, level=lv), {"real": got, "model": m["chunks"]})
     # files: every listed box in exactly one file is implied by the oracle's parse (each entry resolves to its own FAB)
     rep.count(f"files:{max(len({f for f, _ in lev['fab']}) for lev in Q['levels']) if Q['levels'] else 0}")
 
@@ -150,7 +167,7 @@ def run(ctx, rep, model=True):
         c07.flush_model(rep, batch)
     # above the one-megabyte splitting threshold
     spec = big_spec(ctx.rng)
-    run_case(ctx, rep, spec, 2, "L0:centre", 0.25, list(spec["fields"]), None, False, big=True)
+    run_case(ctx, rep, spec, 2, "L0:centre", 0.25, list(spec["fields"]), None, model, big=True)
 
 
 def replay(ctx, rep, obj, model=True):
